@@ -1657,11 +1657,14 @@ class Node:
             # unset so that a new connection may be made later; a connection
             # that never became the peer's own (e.g. a refused CER naming the
             # peer) leaves the peer's record, and its reconnect wait, alone
-            peer.connection = None
+            # (the record of the loss is complete before the peer counts as
+            # unconnected: the I/O thread decides about the next dial from
+            # these three, possibly while a connection thread runs this)
             peer.last_disconnect = int(time.time())
             # only set if not yet set
             if peer.disconnect_reason is None:
                 peer.disconnect_reason = disconnect_reason
+            peer.connection = None
 
         # Remove pending answer tracking; we cannot know if the peer will
         # persist its hop-by-hop IDs over reconnect.
